@@ -20,6 +20,11 @@ Implementation under test (real code, in-process, single-threaded):
   method with a harness-owned start observable), `op.delay` inside engine.py (the launch delay), `threading.Thread`
   inside engine.py (counts restart threads of RepeatingEngine, may raise), `time.sleep` inside control.py, the
   answer of `MonitorExceptionTracker.isSystemStable`, RxPY pools/interval (synchronous stand-ins).
+  The hook module on disk counts its calls: the oracle asserts, per restart-hook outcome of the property's quantifier,
+  that an exit at which the hook was really called and refused (not required / not possible / failed / raising) does not
+  start the task again; the model's `stepAsksHook` is compared with the call count.
+  Order independence: `order_suite()` is run first thing in the process, again after everything else in other orders,
+  and in two child interpreters (`--order-child`): identical implementation answers are required.
 Model: lean/St4sd/Model/Restart.lean via drv-c12.  Theorems: lean/St4sd/Props/C12.lean.
 """
 from __future__ import annotations
@@ -40,6 +45,15 @@ HOOKS = ["ctx:" + c for c in CTXS] + ["yes", "no", "raises", "ioError", "junk"]
 DISKS = ["absent", "scripted", "broken:syntax", "broken:noattr", "broken:raises", "importerror"]
 FINAL_STATES = ("finished", "failed", "component_shutdown")
 INITIATED = "RestartInitiated"
+# restart-hook outcomes of the property's quantifier that REFUSE the restart ("not required, not possible, failed,
+# raising"): codes.py documents RestartContextRestartNotRequired "A restart is not necessary", ...NotPossible "A restart
+# is not possible", ...HookFailed "Tried to restart but something went wrong"; Engine.restart documents the old
+# interface's False as "not required" and a raising hook (other than IOError) as "Will consider it
+# RestartContextHookFailed".  ("possible"/True allow it; IOError, HookNotAvailable and junk are documented as "no
+# specific hook: vanilla restart" - nothing is asserted about those beyond the policy bounds.)
+REFUSING_HOOKS = {"ctx:RestartContextRestartNotRequired": "not required", "no": "not required (False)",
+                  "ctx:RestartContextRestartNotPossible": "not possible", "ctx:RestartContextHookFailed": "failed",
+                  "raises": "raising"}
 PROPERTY_CAP = 5          # "consecutive re-submissions after failed submissions never exceed five"
 PROPERTY_DEFAULT_MAX = 3  # "three by default"
 
@@ -229,12 +243,41 @@ def model_cfg(cfg, effective_hook_on):
             "simulator": sim, "repeating": bool(cfg["repeating"]), "hookModule": module}
 
 
+class _Swallow(logging.Handler):
+    """formats every record (so that lazily formatted arguments are evaluated as with a real handler), keeps nothing"""
+
+    def emit(self, record):
+        try:
+            record.getMessage()
+        except Exception:  # noqa
+            pass
+
+
+def _ambient_logging(level):
+    """ambient setting a user may change: the log level.  None = logging disabled (the default of this harness);
+    "debug"/"info"/"warning" = records of that level and above are really formatted and handled"""
+    if not level:
+        return lambda: None
+    root = logging.getLogger()
+    prev = (logging.root.manager.disable, root.level, list(root.handlers))
+    logging.disable(logging.NOTSET)
+    root.handlers[:] = [_Swallow()]
+    root.setLevel({"debug": 1, "info": logging.INFO, "warning": logging.WARNING}[level])
+
+    def restore():
+        root.handlers[:] = prev[2]
+        root.setLevel(prev[1])
+        logging.disable(prev[0])
+    return restore
+
+
 def impl_run(case, root):
     """Runs one history on the real code. Returns {"events": [...], "hookOn": [...]} or {"error": name}."""
     S = _setup()
     C, E, TU = S["C"], S["E"], S["TU"]
     cfg = case["cfg"]
     tmp = tempfile.mkdtemp(prefix="h-", dir=root)
+    restore_logging = _ambient_logging(case.get("log"))
     try:
         try:
             exp = TU.experiment_from_flowir(flowir_for(cfg), tmp, extra_files=hook_files(cfg), checkExecutables=False)
@@ -334,6 +377,7 @@ def impl_run(case, root):
                                                                          "launch": launches[-1]}}
             flags["run_fails"] = bool(inp["runFails"])
             before = runs["n"] + S["threads"]
+            os.environ["C12_HOOK_CALLS"] = "0"
             try:
                 if case["fin"]:
                     seen = {}
@@ -358,10 +402,12 @@ def impl_run(case, root):
             ev = {"code": code, "restarts": int(eng.restarts), "resub": int(eng.resubmissionAttempts()),
                   "runs": runs["n"] + S["threads"], "shutdown": bool(eng.isShutdown),
                   "started": runs["n"] + S["threads"] - before, "state": str(comp.state),
-                  "finishCalled": bool(comp.finishCalled), "launch": launches[-1], "created": runs["created"]}
+                  "finishCalled": bool(comp.finishCalled), "launch": launches[-1], "created": runs["created"],
+                  "hookCalls": int(os.environ.get("C12_HOOK_CALLS", "0"))}
             events.append(ev)
         return {"events": events, "hookOn": hook_on, "launches": launches}
     finally:
+        restore_logging()
         shutil.rmtree(tmp, ignore_errors=True)
 
 
@@ -401,6 +447,11 @@ def oracle(case, out):
                 bad.append(("task-started-again-after-final-state", {"step": k, "final_at": final_at, "event": ev}))
             if reason != "SubmissionFailed":
                 restarts_started += started if started > 0 else 1
+            # every restart-hook outcome: the hook module's Restart() was really called at this exit and refused
+            if ev.get("hookCalls", 0) > 0 and inp["hook"] in REFUSING_HOOKS:
+                bad.append(("task-started-again-although-restart-hook-refused",
+                            {"step": k, "reason": reason, "hook": inp["hook"], "outcome": REFUSING_HOOKS[inp["hook"]],
+                             "event": ev}))
         if ev["code"] == INITIATED and reason == "SubmissionFailed":
             streak += 1
             if streak > PROPERTY_CAP:
@@ -452,7 +503,7 @@ CLASSIFIERS = {"c12_submissionfailed_listed_bypasses_cap": classify_sf_in_hook_o
 
 def gen_cfg(rng):
     cfg = {}
-    cfg["maxRestarts"] = rng.choice([None, None, -1, 0, 1, 2, 3, 4, 7])
+    cfg["maxRestarts"] = rng.choice([None, None, -1, 0, 1, 2, 3, 4, 7, 10, 11])
     cfg["hookFile"] = rng.choice([None, None, "", "custom.py"])
     k = rng.random()
     if k < 0.12:
@@ -479,13 +530,14 @@ def gen_cfg(rng):
 
 def gen_inps(rng, cfg, n, fin):
     listed = cfg["hookOn"] if cfg["hookOn"] is not None else ["ResourceExhausted"]
-    style = rng.choice(["listed", "listed", "submission", "submission-success", "any", "mixed", "unlisted-unstable"])
+    style = rng.choice(["listed", "listed", "submission", "submission-success", "any", "mixed", "unlisted-unstable",
+                        "listed-hook-faults"])
     unlisted = [r for r in REASONS if r not in listed] or REASONS
     good_hooks = ["ctx:RestartContextRestartPossible", "yes", "junk", "ioError", "ctx:RestartContextHookNotAvailable"]
     lstyle = rng.choice([0.0, 0.0, 0.3, 0.5, 1.0])   # share of failed submissions that are raised by the task generator
     inps = []
     for _ in range(n):
-        if style == "listed" and listed:
+        if style in ("listed", "listed-hook-faults") and listed:
             reason = rng.choice(listed) if rng.random() < 0.85 else rng.choice(REASONS)
         elif style == "submission":
             reason = "SubmissionFailed" if rng.random() < 0.93 else rng.choice(REASONS)
@@ -501,6 +553,9 @@ def gen_inps(rng, cfg, n, fin):
             # a RepeatingEngine's own exitReason() only ever reports these two
             reason = "ResourceExhausted" if reason in ("ResourceExhausted", "SubmissionFailed", "KnownIssue") else "Success"
         hook = rng.choice(good_hooks) if rng.random() < (0.8 if fin else 0.6) else rng.choice(HOOKS)
+        if style == "listed-hook-faults" and rng.random() < 0.6:
+            # a fault inside the user's hook (it raises, reports failure) or an outright refusal, at any point of the history
+            hook = rng.choice(sorted(REFUSING_HOOKS))
         # how the launch before this exit goes: the backend accepts the task, which later reports `reason` (also
         # SubmissionFailed: image pull failures, scheduler TERM codes), or the task generator raises
         launch = "task"
@@ -518,7 +573,10 @@ def gen_inps(rng, cfg, n, fin):
 def gen_case(rng, cfg, fin, maxlen):
     n = rng.choice([1, 2, 3, 5, 8, 12, 20, 30, maxlen, maxlen])
     n = min(n, maxlen)
-    return {"cfg": cfg, "fin": fin, "explicit": rng.random() < 0.3, "inps": gen_inps(rng, cfg, n, fin)}
+    case = {"cfg": cfg, "fin": fin, "explicit": rng.random() < 0.3, "inps": gen_inps(rng, cfg, n, fin)}
+    if rng.random() < 0.12:
+        case["log"] = rng.choice(["debug", "debug", "info", "warning"])     # ambient setting: really handled log records
+    return case
 
 
 def _inp(reason, hook="ctx:RestartContextRestartPossible", control=False, run_fails=False, stable=True, variant=0,
@@ -576,6 +634,18 @@ def corpus_cases():
                "inps": [_inp("ResourceExhausted", control=True), _inp("ResourceExhausted"), _inp("KnownIssue")]})
     cs.append({"cfg": _cfg(hookOn=["KnownIssue"], disk="broken:noattr"), "fin": False, "explicit": False,
                "inps": [_inp("KnownIssue")] * 5})
+    # every refusing restart-hook outcome, first thing and after some restarts, default budget / named hook file
+    # without a maximum (unlimited budget) / explicit maximum; real post-mortem handling and bare _restartComponent
+    for hook in sorted(REFUSING_HOOKS):
+        for variant in ((0, 1, 4) if hook == "raises" else (0,)):
+            cs.append({"cfg": _cfg(hookOn=["ResourceExhausted"]), "fin": True, "explicit": False,
+                       "inps": [_inp("ResourceExhausted", hook, variant=variant)] + [_inp("ResourceExhausted")] * 3})
+        cs.append({"cfg": _cfg(hookFile="custom.py", hookOn=["KnownIssue", "ResourceExhausted"]), "fin": False,
+                   "explicit": False,
+                   "inps": [_inp("KnownIssue")] * 4 + [_inp("ResourceExhausted", hook, variant=3)] * 8 + [_inp("KnownIssue")]})
+        cs.append({"cfg": _cfg(hookFile="custom.py", maxRestarts=11, hookOn=["SystemIssue"]), "fin": True,
+                   "explicit": False, "log": "debug",
+                   "inps": [_inp("SystemIssue")] * 10 + [_inp("SystemIssue", hook, variant=2), _inp("SystemIssue")]})
     return cs
 
 
@@ -605,6 +675,11 @@ def tags_for(case, out):
             t.append("code:" + str(ev["code"]))
             t.append("reason:" + inp["reason"])
             t.append("launch:" + ev["launch"] + ("/SubmissionFailed" if inp["reason"] == "SubmissionFailed" else ""))
+            if ev.get("hookCalls", 0) > 0:
+                t.append("hook-asked:" + (inp["hook"] if inp["hook"].startswith("ctx:") or inp["hook"] != "junk"
+                                          else "junk"))
+    if case.get("log"):
+        t.append("ambient-log-level:" + case["log"])
     return t
 
 
@@ -637,6 +712,125 @@ def check_cases(ctx, cases, root, n_corpus=0):
             ctx.compare("codes, Engine.restarts, resubmissionAttempts, #run(), isShutdown per exit == Restart.exec",
                         c, [{x: e[x] for x in keys} for e in mouts[k]["events"]],
                         [{x: e[x] for x in keys} for e in o["events"]])
+            if c["cfg"]["disk"] == "scripted":
+                ctx.compare("the hook module's Restart() is called at this exit == Restart.stepAsksHook", c,
+                            list(mouts[k]["asked"]), [e["hookCalls"] > 0 for e in o["events"]])
+
+
+def order_suite():
+    """cases whose names collide (one component name, hooks/restart.py / hooks/custom.py with different contents and
+    roles, the same exit reasons) for `result-depends-on-earlier-cases`"""
+    listed = ["KnownIssue", "ResourceExhausted"]
+    hist = [_inp("KnownIssue"), _inp("ResourceExhausted", control=True), _inp("KnownIssue", "raises"),
+            _inp("KnownIssue"), _inp("SubmissionFailed"), _inp("KnownIssue", "ctx:RestartContextRestartNotPossible"),
+            _inp("KnownIssue")]
+    suite = []
+    for disk in ("scripted", "broken:noattr", "absent", "importerror", "broken:raises"):
+        for hook_file in (None, "custom.py"):
+            suite.append({"cfg": _cfg(hookOn=listed, disk=disk, hookFile=hook_file), "fin": False, "explicit": False,
+                          "inps": hist})
+    suite.append({"cfg": _cfg(hookOn=listed, hookFile=""), "fin": False, "explicit": False, "inps": hist})
+    suite.append({"cfg": _cfg(hookOn=listed, maxRestarts=1), "fin": True, "explicit": False, "inps": hist})
+    suite.append({"cfg": _cfg(hookOn=listed, backend="simulator"), "fin": False, "explicit": False, "inps": hist})
+    suite.append({"cfg": _cfg(hookOn=["ResourceExhausted"], repeating=True), "fin": False, "explicit": True,
+                  "inps": [_inp("ResourceExhausted"), _inp("ResourceExhausted")]})
+    return suite
+
+
+def _observed(out):
+    return out.get("events", out)
+
+
+def check_order_independence(ctx, root, suite, orders, seen):
+    """family: process-level / class-level state shared between independent components.  Every case of the suite is
+    run several times in the same process, in different orders and after unrelated cases; the implementation's
+    answers must not depend on what ran before (`seen`: first answer of every case of the suite)."""
+    for order in orders:
+        for k in order:
+            out = _observed(impl_run(suite[k], root))
+            if k not in seen:
+                seen[k] = out
+            elif out != seen[k]:
+                ctx.fail("result-depends-on-earlier-cases",
+                         {"sequence": [suite[j] for j in order], "probe": order.index(k)},
+                         {"first_answer": seen[k], "later_answer": out})
+
+
+CHILD_MARK = "C12-CHILD-ANSWERS "
+
+
+def spawn_child(order, hashseed=None):
+    """a fresh interpreter that runs the cases `order` of the suite (nothing else ran before them in that process)"""
+    import subprocess
+    env = dict(os.environ)
+    if hashseed is not None:
+        env["PYTHONHASHSEED"] = str(hashseed)
+    import json
+    return subprocess.Popen([sys.executable, os.path.abspath(__file__), "--order-child", json.dumps(order)],
+                            stdout=subprocess.PIPE, stderr=subprocess.DEVNULL, env=env, text=True)
+
+
+def collect_child(proc):
+    import json
+    from harness import common
+    try:
+        out, _ = proc.communicate(timeout=300)
+    except Exception as exc:  # noqa
+        proc.kill()
+        raise common.InfraError("C12 child process: %s" % exc)
+    for line in out.splitlines():
+        if line.startswith(CHILD_MARK):
+            return {int(k): v for k, v in json.loads(line[len(CHILD_MARK):]).items()}
+    raise common.InfraError("C12 child process gave no answers: %s" % out[-500:])
+
+
+def _child_main(order_json):
+    import json
+    order = json.loads(order_json)
+    suite = order_suite()
+    root = tempfile.mkdtemp(prefix="c12-child-")
+    cwd = os.getcwd()
+    try:
+        ans = {str(k): _observed(impl_run(suite[k], root)) for k in order}
+    finally:
+        os.chdir(cwd)
+        shutil.rmtree(root, ignore_errors=True)
+    sys.stdout.write("\n" + CHILD_MARK + json.dumps(ans) + "\n")
+    sys.stdout.flush()
+
+
+def compare_with_child(ctx, suite, order, answers, seen, slug, extra):
+    import json
+    for k in order:
+        a, b = json.dumps(seen[k], sort_keys=True), json.dumps(answers[k], sort_keys=True)
+        if a != b:
+            ctx.fail(slug, dict({"sequence": [suite[j] for j in order], "probe": order.index(k)}, **extra),
+                     {"answer_in_this_process": seen[k], "answer_in_fresh_process": answers[k]})
+
+
+def replay_sequence(ctx, case, root):
+    if case.get("fresh_process"):
+        # the probe's answer in a fresh process that ran the sequence in the recorded order, against its answer in a
+        # fresh process in which it runs first (same hash seed), resp. under the recorded other hash seed
+        suite = order_suite()
+        import json
+        idx = [[json.dumps(c, sort_keys=True) for c in suite].index(json.dumps(c, sort_keys=True)) for c in case["sequence"]]
+        pk = idx[case["probe"]]
+        a = collect_child(spawn_child(idx, case.get("hashseed")))
+        b = collect_child(spawn_child([pk] + [k for k in idx if k != pk]))
+        ctx.case(case, nontrivial=False, tags=["order-independence"])
+        if json.dumps(a[pk], sort_keys=True) != json.dumps(b[pk], sort_keys=True):
+            ctx.fail("result-depends-on-hash-seed" if case.get("hashseed") is not None else
+                     "result-depends-on-earlier-cases", case, {"answer": a[pk], "answer_when_run_first": b[pk]})
+        return
+    probe = case["sequence"][case["probe"]]
+    first = _observed(impl_run(probe, root))
+    for c in case["sequence"]:
+        impl_run(c, root)
+    again = _observed(impl_run(probe, root))
+    ctx.case(case, nontrivial=False, tags=["order-independence"])
+    if first != again:
+        ctx.fail("result-depends-on-earlier-cases", case, {"first_answer": first, "later_answer": again})
 
 
 def make_shrinker():
@@ -646,6 +840,9 @@ def make_shrinker():
         root = tempfile.mkdtemp(prefix="c12-shrink-")   # called from finish(), after run() removed its scratch dir
         cwd = os.getcwd()
         try:
+            if "sequence" in case:
+                return case
+
             def fails(inps):
                 if not inps:
                     return False
@@ -666,7 +863,12 @@ def run(ctx):
                 "kinds, ImportError) x backend (local, simulator with sim_restart variants) x engine kind; every step = "
                 "(how the launch goes: Task object created / generator raises OSError / JobLaunchError / other exception, "
                 "exit reason the task reports, hook answer out of 6 contexts/True/False/raising/IOError/12 junk values, CONTROL "
-                "file, run() raising, system stable); mode = real Controller._restartComponent (history continues after "
+                "file, run() raising, system stable; styles incl. faults inside the user's hook - raising / reporting failure / "
+                "refusing - at any point of a history of listed exits); maxRestarts up to 11; 12% of the cases under an ambient log "
+                "level debug/info/warning with the records really handled; a suite of 14 cases with colliding names (hooks/restart.py, "
+                "hooks/custom.py with different contents and roles) run first thing, again after all other cases (backwards, "
+                "shuffled, forwards) and in two fresh interpreters (backwards; forwards under another hash seed) with identical "
+                "answers required; mode = real Controller._restartComponent (history continues after "
                 "refusals) or real Controller.postMortemCheck (refusal finalises). Non-trivial = the history contains at least "
                 "one initiated and at least one refused restart; distinct by canonical JSON.")
     ctx.assumptions = [
@@ -695,6 +897,14 @@ def run(ctx):
         if os.environ.get("C12_NO_CORPUS"):        # switch only for self-tests of the generator
             cases = []
         n_corpus = len(cases)
+        suite = order_suite()
+        ks = list(range(len(suite)))
+        first_answers = {}
+        # two fresh interpreters run the suite meanwhile: backwards (whatever is cached by name is filled by a case of
+        # another role there), and forwards under another hash seed
+        other_seed = (int(os.environ.get("PYTHONHASHSEED", "0") or 0) + 1 + rng.randrange(1000)) % 4294967295
+        children = [spawn_child(ks[::-1]), spawn_child(ks, other_seed)]
+        check_order_independence(ctx, root, suite, [ks], first_answers)      # first thing in the process
         ncfg = 260 if quick else 2600
         for _ in range(ncfg):
             cfg = gen_cfg(rng)
@@ -704,6 +914,15 @@ def run(ctx):
                 cases.append(gen_case(rng, cfg, False, 40))
         check_cases(ctx, cases, root, n_corpus)
         check_schema(ctx, root)
+        # ... and again after everything else, backwards and shuffled
+        sh = list(ks)
+        rng.shuffle(sh)
+        check_order_independence(ctx, root, suite, [ks[::-1], sh, ks], first_answers)
+        compare_with_child(ctx, suite, ks[::-1], collect_child(children[0]), first_answers,
+                           "result-depends-on-earlier-cases", {"fresh_process": True})
+        compare_with_child(ctx, suite, ks, collect_child(children[1]), first_answers,
+                           "result-depends-on-hash-seed", {"fresh_process": True, "hashseed": other_seed})
+        ctx.tag("order-independence-suite-runs", 6 * len(suite))
     finally:
         os.chdir(cwd)
         shutil.rmtree(root, ignore_errors=True)
@@ -730,7 +949,24 @@ def replay(ctx, doc):
     root = tempfile.mkdtemp(prefix="c12-")
     cwd = os.getcwd()
     try:
-        check_cases(ctx, [case], root)
+        if "sequence" in case:
+            replay_sequence(ctx, case, root)
+        else:
+            check_cases(ctx, [case], root)
     finally:
         os.chdir(cwd)
         shutil.rmtree(root, ignore_errors=True)
+
+
+if __name__ == "__main__":
+    # child mode of the order-independence check (see spawn_child)
+    _here = os.path.dirname(os.path.dirname(os.path.abspath(__file__)))
+    _repo = os.environ.get("ST4SD_REPO", "/repo")
+    for _p in (_here, _repo, os.path.join(_repo, "python")):
+        sys.path.insert(0, _p)
+    import warnings
+    warnings.filterwarnings("ignore")
+    if len(sys.argv) == 3 and sys.argv[1] == "--order-child":
+        _child_main(sys.argv[2])
+        sys.stdout.flush()
+        os._exit(0)
